@@ -25,6 +25,7 @@ func main() {
 	secStretch(r)
 	secPack(r)
 	secAtlas(r)
+	thinUVSection(r)
 
 	r.Require("decompose.calls", 50)
 	r.Require("decompose.charts_checked", 100)
@@ -49,5 +50,6 @@ func main() {
 	r.Require("atlas.calls", 5)
 	r.Require("mapfn.inside_queries", 500)
 	r.Require("mapfn.outside_queries", 100)
+	r.Require("mapfn.thin.queries_in_strips", 500)
 	r.Finish()
 }
